@@ -9,6 +9,7 @@ open BeyondVerif BeyondVerif.Drv
 library for the UTC datetime `us` microseconds after 0001-01-01 (rejects negative / non-numeric input)
 `sgp4beta <i0 Ω0 e0 ω0 M0 n0 bstar tdiff>` → six floats: `Sgp4Beta` (setter + propagate), tdiff in minutes
 `sgp4init <i0 Ω0 e0 ω0 M0 n0 bstar>` → the twenty cached `_init` values
+`wrapseq e<key>:<version> … p …` → per `p`: `<setter ran>:<version the record in use was built from>` (`Sgp4Wrap.runSeq`, the binding state machine)
 `refinit <ecco inclo argpo no_kozai bstar>` → the reference spec's `[isimp, deep, no_unkozai, ao, eta, cc1, cc3, cc4, …]` (`F.refInit`)
 `refsgp4 <ecco inclo nodeo argpo mo no_kozai bstar t>` → the reference spec's mean elements and state (`F.refSgp4`), t in minutes -/
 def handle : List String → Option String
@@ -26,6 +27,10 @@ def handle : List String → Option String
     match takeFloats 7 rest with
     | some ([i0, raan, e0, argp, m0, n0, bstar], []) => fsToStr (F.sgp4Init i0 raan e0 argp m0 n0 bstar)
     | _ => "bad-op"
+  | "wrapseq" :: rest => some <|
+    match Sgp4Wrap.runSeq none (0, 0) rest with
+    | some l => if l.isEmpty then "-" else joinWith " " l
+    | none => "bad-op"
   | "refinit" :: rest => some <|
     match takeFloats 5 rest with
     | some ([ecco, inclo, argpo, no, bstar], []) => fsToStr (F.refInit ecco inclo argpo no bstar)
